@@ -3,7 +3,7 @@
 From MMD.lib Require Import Bytes Utf8.
 From MMD.gen Require Import CharTable.
 From MMD.model Require Import LabelModel MetaModel.
-From MMD.proofs Require Import MetaProofs LabelProofs EscaperProofs MetaRoundTrip MetaUpdate MetaMultiLine.
+From MMD.proofs Require Import MetaProofs LabelProofs EscaperProofs MetaRoundTrip MetaUpdate MetaMultiLine MetaUpdateMulti.
 Local Open Scope N_scope.
 
 (* a key - a letter or digit followed by letters, digits, blanks, '_', '-', '.' - directly followed by
@@ -93,6 +93,22 @@ Theorem update_reads_back_new_value :
   meta_parse ws (meta_update ws (block_text es ++ tail) key value) = Some (result ws es', length (block_text es')).
 Proof. exact update_reads_back. Qed.
 Print Assumptions update_reads_back_new_value.
+
+(* the same update on a block whose entries may continue on following lines: the new value takes the place of the rest of
+   the entry's first line AND of its continuation lines; every other entry, with its continuation lines, and everything
+   after the block stay as they are (so the result is again a block the multi-line round trip applies to) *)
+Theorem update_rewrites_exactly_one_entry_multiline :
+  forall ws es1 ki vi cs es2 tail key value,
+  let es := es1 ++ (ki, vi, cs) :: es2 in
+  forallb wf_mentry es = true ->
+  (match es with e1 :: _ => forallb is_ws (mval e1) = false | [] => True end) ->
+  tail_ok tail ->
+  (forall e, In e es1 -> bytes_eqb_l (label_from_string key) (label_from_string (mkey e)) = false) ->
+  bytes_eqb_l (label_from_string key) (label_from_string ki) = true ->
+  meta_update ws (mtext es ++ tail) key value =
+  mtext (es1 ++ (ki, take_while is_ws vi ++ value, []) :: es2) ++ tail.
+Proof. exact update_rewrites_one_entry_multiline. Qed.
+Print Assumptions update_rewrites_exactly_one_entry_multiline.
 
 (* adding: a key that no entry of the block carries is appended to the block as one line "key:<tab>value"; the lines of the
    block and everything after it stay, and the text reads back as the old entries followed by the new one *)
